@@ -2,6 +2,7 @@
    Numerals are UInt64 bit patterns (`C := UInt64`, `ι := Float.ofBits`). -/
 import MysticVerif.Basic.Proto
 import MysticVerif.Model.Emitted
+import MysticVerif.Model.EmittedJoin
 
 namespace MysticVerif.DrvC13
 open MysticVerif MysticVerif.Emitted
@@ -21,6 +22,9 @@ partial def parseExpr : Val → Option (Expr UInt64)
   | .list [.sym "bor", a, b] => do pure (.bor (← parseExpr a) (← parseExpr b))
   | .list [.sym "false"] => some .false_
   | .list [.sym "iszero", a] => do pure (.isZero (← parseExpr a))
+  | .list [.sym "abs", a] => do pure (.abs (← parseExpr a))
+  | .list [.sym "app1", .int f, a] => do if f < 0 then none else pure (.app1 f.toNat (← parseExpr a))
+  | .list [.sym "app2", .int f, a, b] => do if f < 0 then none else pure (.app2 f.toNat (← parseExpr a) (← parseExpr b))
   | _ => none
 
 def parseCmp : Val → Option Cmp
@@ -42,7 +46,26 @@ def parseAssign : Val → Option (Assign UInt64)
       if i < 0 then none else pure ⟨i.toNat, ← parseExpr e⟩
   | _ => none
 
-def mkEnv (tol rel : Float) : Env UInt64 Float := ⟨Float.ofBits, tol, rel⟩
+/-- the function symbols of the generated namespace: numpy's `sqrt`, `floor`, `ceil` (IEEE-exact), `exp`, `log`, `sin`, `cos`
+(libm here, numpy's own kernels there: compared with a tolerance, in a separately counted stream) -/
+def fn1 (f : Nat) (a : Float) : Float :=
+  match f with
+  | 0 => Float.sqrt a
+  | 1 => Float.floor a
+  | 2 => Float.ceil a
+  | 3 => Float.exp a
+  | 4 => Float.log a
+  | 5 => Float.sin a
+  | 6 => Float.cos a
+  | _ => a
+
+/-- `a ** b` = C `pow` (CPython's float_pow and Lean's `Float.pow` both call libm) -/
+def fn2 (f : Nat) (a b : Float) : Float :=
+  match f with
+  | 0 => Float.pow a b
+  | _ => a
+
+def mkEnv (tol rel : Float) : Env UInt64 Float := { ι := Float.ofBits, tol := tol, rel := rel, f1 := fn1, f2 := fn2 }
 
 def isPosBits (c : UInt64) : Bool := decide ((0 : Float) < Float.ofBits c)
 
@@ -67,6 +90,39 @@ def handle : Handler
     match chain? env codes x with
     | some y => return s!"ok recog={rs} free={fs} res=value y={pFs y}"
     | none => return s!"ok recog={rs} free={fs} res=raises"
+  | .sym "gc" :: args => Id.run do        -- generate_constraint with ctype= / join=
+    let some tol := (kw? args "tol").bind Val.asFloat? | return "bad-op"
+    let some rel := (kw? args "rel").bind Val.asFloat? | return "bad-op"
+    let some x := (kw? args "x").bind Val.asFloats? | return "bad-op"
+    let some rels := (kw? args "rels").bind Val.asList? |>.bind (·.mapM parseRel) | return "bad-op"
+    let some codes := (kw? args "codes").bind Val.asList? |>.bind (·.mapM parseAssign) | return "bad-op"
+    let some mode := (kw? args "mode").bind Val.asSym? | return "bad-op"
+    if rels.length != codes.length then return "bad-op"
+    let env := mkEnv tol rel
+    let recog := List.zipWith (fun r (c : Assign UInt64) => recognise isPosBits oneBits r c.canon) rels codes
+    let rs := "(" ++ " ".intercalate (recog.map pB) ++ ")"
+    let free := List.zipWith (fun (r : Rel UInt64) (c : Assign UInt64) =>
+      !(r.rhs.mentions r.i) && !(c.canon.factor.mentions r.i)) rels codes
+    let fs := "(" ++ " ".intercalate (free.map pB) ++ ")"
+    let showRes := fun (r : Comb.Res (List Float) × Comb.Stats) =>
+      match r.1 with
+      | .success y t links => s!"res=success y={pFs y} t={t} links={links} calls={r.2.calls} draws={r.2.draws}"
+      | .fail y => s!"res=fail y={pFs y} calls={r.2.calls} draws={r.2.draws}"
+      | .stuck => s!"res=stuck calls={r.2.calls} draws={r.2.draws}"
+    match mode with
+    | "ctype" =>
+      let some ws := (kw? args "ctypes").bind Val.asList? |>.bind (·.mapM fun v => match v with
+        | .sym "inner" => some CType.inner
+        | .sym "outer" => some CType.outer
+        | _ => none) | return "bad-op"
+      if ws.length != codes.length then return "bad-op"
+      let ord := order (ws.zip codes)
+      match compose? env (ws.zip codes) x with
+      | some y => return s!"ok recog={rs} free={fs} res=value y={pFs y} order={pNs (ord.map (·.i))}"
+      | none => return s!"ok recog={rs} free={fs} res=raises"
+    | "and" => return s!"ok recog={rs} free={fs} {showRes (joinAnd env codes x [])}"
+    | "or" => return s!"ok recog={rs} free={fs} {showRes (joinOr env codes x [])}"
+    | _ => return "bad-op"
   | .sym "eval" :: args => Id.run do      -- plain evaluation of one expression (translator twin test)
     let some tol := (kw? args "tol").bind Val.asFloat? | return "bad-op"
     let some rel := (kw? args "rel").bind Val.asFloat? | return "bad-op"
